@@ -9,32 +9,41 @@ use ops::*;
 /// (property id, what) of the first disagreement
 pub type Verdict = Result<(), (&'static str, &'static str)>;
 
-pub fn judge(input: &str, real: &Obs, bad_rest: bool, oracle: &Obs, cmp_err: bool, cmp_fields: bool, allow_sentinel: bool, post: Result<(), &'static str>) -> Verdict {
+/// every disagreement of one run, one entry per label (what cannot be compared after an earlier disagreement is not:
+/// nothing after an unsafe offset or a different verdict; tree, spans and consumed bytes are compared independently)
+pub fn judge_all(input: &str, real: &Obs, bad_rest: bool, oracle: &Obs, cmp_err: bool, cmp_fields: bool, allow_sentinel: bool, post: Result<(), &'static str>) -> Vec<(&'static str, &'static str)> {
+    let mut out: Vec<(&'static str, &'static str)> = Vec::new();
     // C04: every offset the parser exposes lies on a character boundary inside the input
-    if real.ok { if real.end > input.len() || !input.is_char_boundary(real.end) { return Err(("C04", "the end offset is not a character boundary inside the input")); } }
-    else if real.err > input.len() || !input.is_char_boundary(real.err) { return Err(("C04", "the reported error position is not a character boundary inside the input")); }
-    if bad_rest { return Err(("C14", "an extern function was not handed the remaining input at the current offset")); }
+    if real.ok { if real.end > input.len() || !input.is_char_boundary(real.end) { out.push(("C04", "the end offset is not a character boundary inside the input")); return out; } }
+    else if real.err > input.len() || !input.is_char_boundary(real.err) { out.push(("C04", "the reported error position is not a character boundary inside the input")); return out; }
+    if bad_rest { out.push(("C14", "an extern function was not handed the remaining input at the current offset")); return out; }
     if real.ok != oracle.ok {
-        return Err(("C01", if real.ok { "generated parser accepts where the PEG reading of the grammar rejects" } else { "generated parser rejects where the PEG reading of the grammar accepts" }));
+        out.push(("C01", if real.ok { "generated parser accepts where the PEG reading of the grammar rejects" } else { "generated parser rejects where the PEG reading of the grammar accepts" }));
+        return out;
     }
     if real.ok {
-        if real.end != oracle.end { return Err(("C01", "rule consumed a different number of bytes than PEG semantics determines")); }
+        if real.end != oracle.end { out.push(("C01", "rule consumed a different number of bytes than PEG semantics determines")); }
         if cmp_fields {
             let mut i = 0;
-            while i < NFLD { if real.f[i] != oracle.f[i] { return Err(("C02", "a field does not hold exactly the matches on the successful path, in order")); } i += 1; }
+            while i < NFLD { if real.f[i] != oracle.f[i] { out.push(("C02", "a field does not hold exactly the matches on the successful path, in order")); break; } i += 1; }
         }
-        if real.x != oracle.x { return Err(("C09", "a recorded position/@string span is not the span the rule consumed")); }
+        if real.x != oracle.x { out.push(("C09", "a recorded position/@string span is not the span the rule consumed")); }
     } else {
-        if real.sentinel && !allow_sentinel { return Err(("C10", "the reported error is the internal left-recursion sentinel")); }
-        if cmp_err && real.err != oracle.err { return Err(("C10", "reported error position is not the furthest failed attempt")); }
+        if real.sentinel && !allow_sentinel { out.push(("C10", "the reported error is the internal left-recursion sentinel")); }
+        else if cmp_err && real.err != oracle.err { out.push(("C10", "reported error position is not the furthest failed attempt")); }
     }
     if let Err(m) = post {
         let p: &'static str = if m.len() >= 3 { match &m.as_bytes()[..3] {
             b"C01" => "C01", b"C02" => "C02", b"C03" => "C03", b"C04" => "C04", b"C05" => "C05", b"C06" => "C06", b"C07" => "C07",
             b"C08" => "C08", b"C09" => "C09", b"C10" => "C10", b"C13" => "C13", b"C14" => "C14", b"C19" => "C19", _ => "C01" } } else { "C01" };
-        return Err((p, m));
+        if !out.iter().any(|(q, _)| *q == p) { out.push((p, m)); }
     }
-    Ok(())
+    out
+}
+
+/// the first disagreement (kept for the generated Kani harnesses and `replay`)
+pub fn judge(input: &str, real: &Obs, bad_rest: bool, oracle: &Obs, cmp_err: bool, cmp_fields: bool, allow_sentinel: bool, post: Result<(), &'static str>) -> Verdict {
+    match judge_all(input, real, bad_rest, oracle, cmp_err, cmp_fields, allow_sentinel, post).first() { Some(x) => Err(*x), None => Ok(()) }
 }
 
 #[macro_export]
@@ -46,6 +55,18 @@ macro_rules! judge_schema {
         let oracle = $crate::schemas::$m::oracle(t);
         let post = $crate::schemas::$m::post(t, &real, &oracle);
         $crate::judge(t.input(), &real, bad, &oracle, $crate::schemas::$m::CMP_ERR, $crate::schemas::$m::CMP_FIELDS, $crate::schemas::$m::ALLOW_SENTINEL, post)
+    }};
+}
+
+#[macro_export]
+macro_rules! judge_schema_all {
+    ($m:ident, $t:expr) => {{
+        let t: &$crate::ops::Tables = $t;
+        let real = $crate::schemas::$m::real(t);
+        let bad = $crate::ops::bad_rest();
+        let oracle = $crate::schemas::$m::oracle(t);
+        let post = $crate::schemas::$m::post(t, &real, &oracle);
+        ($crate::judge_all(t.input(), &real, bad, &oracle, $crate::schemas::$m::CMP_ERR, $crate::schemas::$m::CMP_FIELDS, $crate::schemas::$m::ALLOW_SENTINEL, post), real.ok, real.end)
     }};
 }
 
